@@ -16,7 +16,7 @@ RULE = ("exhaustive: every profile over m <= 3 alternatives with <= 3 distinct b
         "profiles under the foreign type labels cat/wmd on a sample; random: m <= 8, <= 9 distinct ballots, "
         "multiplicities <= 50, tie-heavy generators (rotations with equal multiplicities, order + reverse, equal "
         "multiplicities, shared first choices, first-place majorities, single alternative, approval profiles with "
-        "forced equal satisfaction scores). non-trivial = >= 2 alternatives, >= 2 distinct ballots, some multiplicity > 1")
+        "forced equal satisfaction scores). histories (550 quick / 7000 thorough, ~10% of the random cases): ONE OrdinalInstance object filled through append_order / append_order_array / append_order_list / append_vote_map, every rule called, ballots repeating existing orders appended (only multiplicities move, majority flipped), rules called again on the same object, interleaved rule A / append / rule B / rule A; each answer judged against the model on the instance's current multiplicity table. non-trivial = >= 2 alternatives, >= 2 distinct ballots, some multiplicity > 1")
 EXHAUSTIVE = {"quick": "m<=3, n<=3 distinct ballots, multiplicities<=2, soc/soi/toc/toi, all 7 rules, k=1..m+2",
               "thorough": "m<=3, n<=3 distinct ballots, multiplicities<=2 (and m<=3, n<=2, multiplicities<=3), "
                           "soc/soi/toc/toi, all 7 rules, k=1..m+2"}
@@ -327,6 +327,189 @@ def gen_soi_kapp(rng, count):
     return out
 
 
+
+# ------------------------------------------------------------------------------------------------ histories
+# One OrdinalInstance object lives through a whole history: it is filled through the public append API, every rule is
+# asked, ballots that REPEAT existing orders are appended (only multiplicities move), the rules are asked again on
+# the same object.  Every answer is judged against the model evaluated on the instance's CURRENT multiplicity table
+# (snapshot taken just before the call).  actions: [0, method, [[order, count], ...]] | [1, [[rule, k], ...]]
+# (empty selection = every rule, k = 1..m+2); rule 0..5 = RULES, 6 = k-approval.
+HIST_METHODS = ["append_order", "append_order_array", "append_order_list", "append_vote_map"]
+
+
+def hist_apply(inst, method, ballots):
+    import numpy as np
+    if method == 3:
+        inst.append_vote_map({tuple(tuple(c) for c in o): k for o, k in ballots})
+        return
+    rows = [o for o, k in ballots for _ in range(k)]
+    strict_rows = all(len(c) == 1 for o in rows for c in o)
+    if method == 0 and strict_rows:
+        for o in rows:
+            inst.append_order([c[0] for c in o])
+    elif method == 1 and strict_rows and len({len(o) for o in rows}) == 1 and all(a < 2 ** 62 for o in rows for c in o for a in c):
+        inst.append_order_array(np.array([[c[0] for c in o] for o in rows]))
+    else:
+        inst.append_order_list([tuple(tuple(c) for c in o) for o in rows])
+
+
+def hist_snapshot(inst):
+    dt = DT.index(inst.data_type) if inst.data_type in DT else 5
+    return [dt, [int(a) for a in inst.alternatives_name], int(inst.num_alternatives), int(inst.num_voters),
+            [[[[int(a) for a in c] for c in o], int(k)] for o, k in inst.multiplicity.items()]]
+
+
+def hist_run(actions, call_rule, default_sel):
+    """-> [[snapshot, [[rule, k, result], ...]], ...], one entry per call action; the instance is never rebuilt"""
+    from preflibtools.instances import OrdinalInstance
+    inst = OrdinalInstance()
+    out = []
+    for act in actions:
+        if act[0] == 0:
+            hist_apply(inst, act[1], act[2])
+        else:
+            snap = hist_snapshot(inst)
+            sel = act[1] or default_sel(len(snap[1]))
+            out.append([snap, [[r, k, call_rule(inst, r, k)] for r, k in sel]])
+    return out
+
+
+def _default_sel(m):
+    return [[r, 0] for r in range(6)] + [[6, k] for k in range(1, m + 3)]
+
+
+def _call_rule(inst, r, k):
+    from preflibtools.aggregation import singlewinner as W
+    fns = [W.plurality_winner, W.veto_winner, W.borda_winner, W.copeland_winner, W.approval_winner,
+           W.satisfaction_approval_winner]
+    return _win(W.k_approval_winner, inst, k) if r == 6 else _win(fns[r], inst)
+
+
+def gen_history_actions(rng, shape_dt, n_rules, pick_sel):
+    """initial profile through the append API, call, append repeats of existing ballots so that a different ballot
+    holds the majority, interleaved calls (rule A, append, rule B, rule A), second flip, call everything"""
+    m = rng.randint(2, 5)
+    alts = list(range(0, m)) if rng.random() < 0.3 else list(range(1, m + 1))
+    weak = shape_dt in (2, 3)
+    methods = [2, 3] if weak else [0, 1, 2, 3]
+    ballots = []
+    for _ in range(rng.randint(2, 4)):
+        b = rand_ballot(rng, shape_dt, alts)
+        if b not in ballots:
+            ballots.append(b)
+    counts = [rng.randint(1, 3) for _ in ballots]
+    actions = []
+    cut = rng.randint(1, len(ballots))
+    for part in (list(zip(ballots, counts))[:cut], list(zip(ballots, counts))[cut:]):
+        if part:
+            actions.append([0, rng.choice(methods), [[o, k] for o, k in part]])
+    A, B = pick_sel(rng, m), pick_sel(rng, m)
+    actions.append([1, [] if rng.random() < 0.6 else A])
+    total = sum(counts)
+    order_idx = sorted(range(len(ballots)), key=lambda j: counts[j])          # smallest multiplicity first
+    for rnd, j in enumerate(order_idx[:2]):
+        meth = 3 if total > 40 else rng.choice(methods)
+        add = total + 1 if meth != 3 or rng.random() < 0.5 else rng.choice([total + 1, 10 * total, 2 ** 53 + 1])
+        rep = [[ballots[j], add]]
+        extra = rng.choice(ballots)
+        if rng.random() < 0.3 and extra != ballots[j]:
+            rep.append([extra, 1])
+        actions.append([0, meth, rep])
+        counts[j] += add
+        total = sum(counts) + 1
+        if rnd == 0:
+            actions.append([1, B])
+            actions.append([1, A])
+        else:
+            actions.append([1, []])
+    return actions
+
+
+def _pick_sel06(rng, m):
+    r = rng.choice([0, 1, 2, 3, 3, 3, 4, 5, 6])
+    return [[r, rng.randint(1, m + 1) if r == 6 else 0]]
+
+
+def gen_histories(rng, count):
+    out = []
+    for _ in range(count):
+        shape_dt = rng.choice([0, 0, 0, 1, 2, 3])
+        out.append(case("c06.hist", gen_history_actions(rng, shape_dt, 7, _pick_sel06), gen="history"))
+    return out
+
+
+def oracle_requests(c, r):
+    if c["op"] != "c06.hist":
+        return [(c["op"], c["payload"])]
+    if not isinstance(r, list):
+        return []
+    reqs = []
+    for snap, res in r:
+        ks = sorted({k for rr, k, _ in res if rr == 6})
+        reqs.append(("c06.all", [snap, ks]))
+    return reqs
+
+
+def judge_history(c, r, mres, names, n_fixed, theorem):
+    if len(mres) != len(r):
+        return {"kind": "broken-correspondence", "reason": "history: %d call steps, %d model answers" % (len(r), len(mres))}
+    for step, ((snap, res), m) in enumerate(zip(r, mres)):
+        ks = sorted({k for rr, k, _ in res if rr == n_fixed})
+        for rr, k, ri in res:
+            mi = m[rr] if rr < n_fixed else m[n_fixed + ks.index(k)]
+            if ri[:2] != _canon(mi):
+                nm = names[rr] + (" k=%d" % k if rr == n_fixed else "")
+                return {"kind": "mismatch", "theorem": theorem,
+                        "reason": "history, call step %d on the same instance object: %s on the current table "
+                                  "(%s, multiplicities %r): implementation %r, model %r"
+                                  % (step + 1, nm, DT[snap[0]], [k2 for _, k2 in snap[4]], ri, _canon(mi))}
+    return None
+
+
+def history_stats(c, r, mres, names, n_fixed):
+    out = ["history: %d appends, %d call steps" % (sum(1 for a in c["payload"] if a[0] == 0),
+                                                    sum(1 for a in c["payload"] if a[0] == 1))]
+    for a in c["payload"]:
+        if a[0] == 0:
+            out.append("history: " + HIST_METHODS[a[1]])
+    seen = {}
+    changed = set()
+    if isinstance(r, list):
+        for (snap, res), m in zip(r, mres):
+            ks = sorted({k for rr, k, _ in res if rr == n_fixed})
+            for rr, k, _ in res:
+                mi = m[rr] if rr < n_fixed else m[n_fixed + ks.index(k)]
+                key = (rr, k)
+                val = tuple(sorted(mi[1])) if mi[0] == 0 else ("refused", mi[1])
+                if key in seen and seen[key] != val and mi[0] == 0:
+                    changed.add(names[rr])
+                seen[key] = val
+    for nm in sorted(changed):
+        out.append("history: %s winner set changed between two calls on the same object" % nm)
+    if not changed:
+        out.append("history: no winner set changed")
+    return out
+
+
+def shrink_history(c):
+    acts = c["payload"]
+    for i in range(len(acts)):
+        rest = acts[:i] + acts[i + 1:]
+        if any(a[0] == 1 for a in rest) and any(a[0] == 0 for a in rest) and rest[0][0] == 0:
+            yield dict(c, payload=rest)
+    for i, a in enumerate(acts):
+        if a[0] == 0:
+            for j, (o, k) in enumerate(a[2]):
+                if k > 1:
+                    nb = a[2][:j] + [[o, k - 1]] + a[2][j + 1:]
+                    yield dict(c, payload=acts[:i] + [[0, a[1], nb]] + acts[i + 1:])
+                if len(a[2]) > 1:
+                    yield dict(c, payload=acts[:i] + [[0, a[1], a[2][:j] + a[2][j + 1:]]] + acts[i + 1:])
+        elif not a[1]:
+            for sel in _default_sel(3)[:6]:
+                yield dict(c, payload=acts[:i] + [[1, [sel]]] + acts[i + 1:])
+
+
 BIG_MULTS = [2 ** 53 - 1, 2 ** 53, 2 ** 53 + 1, 2 ** 53 + 3, 2 ** 53 + 7, 2 ** 53 + 101, 2 ** 63 - 1, 2 ** 63 + 1,
              2 ** 64 + 1, 10 ** 30 + 7]
 HUGE_IDS = [10 ** 18, 2 ** 64 + 1, 10 ** 18 + 1, 2 ** 63, 2 ** 53 + 1]
@@ -403,7 +586,9 @@ def gen_big_ties(rng, count):
 
 
 def gen_random(tier, seed):
-    return exoticise(random.Random(1000003 * seed + 606), _gen_random(tier, seed))
+    out = exoticise(random.Random(1000003 * seed + 606), _gen_random(tier, seed))
+    out.extend(gen_histories(random.Random(1000003 * seed + 6006), 550 if tier == "quick" else 7000))
+    return out
 
 
 def _gen_random(tier, seed):
@@ -461,6 +646,8 @@ def impl(c):
     fns = {"plurality": W.plurality_winner, "veto": W.veto_winner, "borda": W.borda_winner,
            "copeland": W.copeland_winner, "approval": W.approval_winner, "sav": W.satisfaction_approval_winner}
     op, pl = c["op"], c["payload"]
+    if op == "c06.hist":
+        return hist_run(pl, _call_rule, _default_sel)
     if op == "c06.all":
         ip, ks = pl
         res = []
@@ -502,6 +689,9 @@ def _dt(c):
 
 
 def judge(c, r, mres):
+    if c["op"] == "c06.hist":
+        return judge_history(c, r, mres, RULES + ["kapp"], 6,
+                             "R_spec / R_regroup of Properties/C06.v on the current multiplicity table")
     m = mres[0]
     if c["op"] != "c06.all":
         r, m = [r], [m]
@@ -528,11 +718,15 @@ def _prof(c):
 
 
 def nontrivial(c, r, m):
+    if c["op"] == "c06.hist":
+        return True
     ip = _prof(c)
     return len(ip[1]) >= 2 and len(ip[4]) >= 2 and any(k > 1 for _, k in ip[4])
 
 
 def stats(c, r, m):
+    if c["op"] == "c06.hist":
+        return history_stats(c, r, m, RULES + ["kapp"], 6)
     ip = _prof(c)
     out = ["type=%s" % DT[ip[0]], "m=%d" % len(ip[1]), "ballots=%s" % (len(ip[4]) if len(ip[4]) <= 3 else ">3")]
     if c["tags"].get("gen"):
@@ -582,7 +776,19 @@ def stats(c, r, m):
     return out
 
 
+def describe_history(c, names):
+    out = []
+    for a in c["payload"]:
+        if a[0] == 0:
+            out.append({HIST_METHODS[a[1]]: [{"order": o, "times": k} for o, k in a[2]]})
+        else:
+            out.append({"call": "every rule" if not a[1] else [names[r] + (" k=%d" % k if k else "") for r, k in a[1]]})
+    return {"op": c["op"], "history_on_one_instance_object": out}
+
+
 def describe(c):
+    if c["op"] == "c06.hist":
+        return describe_history(c, RULES + ["kapp"])
     ip = _prof(c)
     d = {"op": c["op"], "data_type": DT[ip[0]], "alternatives": ip[1],
          "ballots": [{"order": o, "multiplicity": k} for o, k in ip[4]]}
@@ -602,6 +808,9 @@ def _with_inst(c, ip):
 
 
 def shrink(c):
+    if c["op"] == "c06.hist":
+        yield from shrink_history(c)
+        return
     dt, alts, _, _, prof = _prof(c)
     # drop a ballot
     if len(prof) > 1:
